@@ -21,6 +21,9 @@ type CaseFrame struct {
 	Avail  B       `json:"avail"`   // bytes that follow the blank line in the buffer
 	Flags  uint    `json:"flags"`   // 0..7
 	Sched  []int   `json:"sched"`   // chunk schedule: the verdict of the last call (whole buffer) is what the table describes
+	// TruncAt > 0: additionally the first line + header block is cut at 1 + (TruncAt-1) mod (header-end - 1) and parsed
+	// in no-more-data mode: nothing more will come, so the verdict must be a definitive failure, never more-bytes-needed
+	TruncAt int `json:"trunc_at,omitempty"`
 }
 
 func (c CaseFrame) render() ([]byte, int) {
@@ -142,6 +145,39 @@ func evalFrame(c CaseFrame) Result {
 	if m != "" {
 		return viol("%s\n%s\nmsg=%s", m, ctx, B(buf)).with(true, classes...)
 	}
+	if c.TruncAt > 0 && hdrEnd > 1 && c.CL <= 1<<24 {
+		k := 1 + (c.TruncAt-1)%(hdrEnd-1)
+		var tm sipsp.PSIPMsg
+		tm.Init(nil, make([]sipsp.Hdr, 70), nil)
+		to, te := sipsp.ParseSIPMsg(buf[:k:k], 0, &tm, flags&^sipsp.SIPMsgNoMoreDataF)
+		if te != sipsp.ErrHdrMoreBytes || to < 0 || to > k {
+			return viol("the first %d bytes of a well-formed head (ends at %d) give (%d, %v), want more-bytes-needed\nmsg=%s", k, hdrEnd, to, te, B(buf[:k])).with(true, classes...)
+		}
+		if tm.Parsed() || tm.Err() {
+			return viol("after more-bytes-needed on %d of %d head bytes: Parsed()=%v Err()=%v\nmsg=%s", k, hdrEnd, tm.Parsed(), tm.Err(), B(buf[:k])).with(true, classes...)
+		}
+		// the same prefix is all there will ever be (resumed with the flag, and one-shot with the flag)
+		ro, re := sipsp.ParseSIPMsg(buf[:k:k], to, &tm, flags|sipsp.SIPMsgNoMoreDataF)
+		var om sipsp.PSIPMsg
+		om.Init(nil, make([]sipsp.Hdr, 70), nil)
+		oo, oe := sipsp.ParseSIPMsg(buf[:k:k], 0, &om, flags|sipsp.SIPMsgNoMoreDataF)
+		for _, x := range []struct {
+			how string
+			o   int
+			e   sipsp.ErrorHdr
+			m   *sipsp.PSIPMsg
+		}{{"resumed", ro, re, &tm}, {"one-shot", oo, oe, &om}} {
+			if x.e == sipsp.ErrHdrMoreBytes || x.e == 0 || x.e == sipsp.ErrHdrNoCLen || !x.m.Err() || x.m.Parsed() {
+				return viol("head cut at %d of %d in no-more-data mode (%s): (%d, %v) Err()=%v Parsed()=%v, want a definitive failure (incomplete data)\nmsg=%s",
+					k, hdrEnd, x.how, x.o, x.e, x.m.Err(), x.m.Parsed(), B(buf[:k])).with(true, classes...)
+			}
+		}
+		if re != oe {
+			return viol("head cut at %d of %d in no-more-data mode: resumed verdict %v, one-shot verdict %v\nmsg=%s", k, hdrEnd, re, oe, B(buf[:k])).with(true, classes...)
+		}
+		classes = append(classes, "truncated-head+no-more-data")
+		nt = true
+	}
 	return ok(nt, classes...)
 }
 
@@ -189,6 +225,9 @@ func genFrame(t *rapid.T) CaseFrame {
 	}
 	c.CLName = recase(t, pick(t, "clname", "Content-Length", "l"))
 	c.CLPos = rapid.IntRange(0, len(c.Head.Hdrs)).Draw(t, "clpos")
+	if rapid.IntRange(0, 3).Draw(t, "trunc") == 0 {
+		c.TruncAt = rapid.IntRange(1, 4000).Draw(t, "truncat")
+	}
 	if rapid.IntRange(0, 2).Draw(t, "chunked") == 0 {
 		k := rapid.IntRange(1, 5).Draw(t, "ncuts")
 		for i := 0; i < k; i++ {
